@@ -38,10 +38,12 @@ type c11Event struct {
 }
 
 type c11Plan struct {
-	Globals bool         `json:"globals,omitempty"` // the program has globals named like the sinks' locals (event, id, acc)
-	Workers int          `json:"workers"`
-	Sinks   []c11Sink    `json:"sinks"`
-	Clients [][]c11Event `json:"clients"`
+	Globals  bool         `json:"globals,omitempty"`  // the program has globals named like the sinks' locals (event, id, acc)
+	Observer bool         `json:"observer,omitempty"` // a root monitor error observer is registered
+	Nest     bool         `json:"nest,omitempty"`     // the shared counter function takes its mutex re-entrantly
+	Workers  int          `json:"workers"`
+	Sinks    []c11Sink    `json:"sinks"`
+	Clients  [][]c11Event `json:"clients"`
 }
 
 func init() {
@@ -97,6 +99,8 @@ func c11Gen(r *simrt.RNG, tier string) interface{} {
 		}
 	}
 	p.Globals = r.Bool(0.3)
+	p.Observer = r.Bool(0.3)
+	p.Nest = r.Bool(0.4)
 	nc := 2 + r.Intn(3)
 	id := 1
 	for c := 0; c < nc; c++ {
@@ -191,6 +195,16 @@ func c11Shrink(pi interface{}) []interface{} {
 		q.Globals = false
 		out = append(out, q)
 	}
+	if p.Observer {
+		q := clone()
+		q.Observer = false
+		out = append(out, q)
+	}
+	if p.Nest {
+		q := clone()
+		q.Nest = false
+		out = append(out, q)
+	}
 	return out
 }
 
@@ -200,7 +214,11 @@ func c11Program(p *c11Plan) string {
 		// names the sinks use for their own `event` value and `let` locals
 		b.WriteString("event := {\"state\": {\"id\": -1}, \"name\": \"global\"}\nid := -2\nacc := -3\ny := -4\narr := [-5, -5]\n")
 	}
-	b.WriteString("gcount := 0\nfunc bump() {\n    mutex cm {\n        gcount := gcount + 1\n    }\n}\n")
+	if p.Nest {
+		b.WriteString("gcount := 0\nfunc bump() {\n    mutex cm {\n        bump2()\n    }\n}\nfunc bump2() {\n    mutex cm {\n        gcount := gcount + 1\n    }\n}\n")
+	} else {
+		b.WriteString("gcount := 0\nfunc bump() {\n    mutex cm {\n        gcount := gcount + 1\n    }\n}\n")
+	}
 	b.WriteString("func shared(x) {\n    let y := x\n    return y\n}\n")
 	for _, s := range p.Sinks {
 		var ks []string
@@ -273,6 +291,28 @@ func c11Run(p *c11Plan) {
 	src := c11Program(p)
 	if _, err := loadProgram(erp, "c11", src, vs); err != nil {
 		simrt.Fail("oracle:setup", "setup", "program does not load: %v\n%s", err, src)
+	}
+	// the processor's error observer: called once per failing event with the root monitor
+	// of that event's cascade
+	notified := map[int]int{}
+	if p.Observer {
+		erp.Processor.SetRootMonitorErrorObserver(func(rm *engine.RootMonitor) {
+			errs := rm.AllErrors()
+			if len(errs) == 0 {
+				simrt.Fail("oracle:error-attribution", "observer-foreign", "the root monitor error observer was called with a root monitor that holds no error")
+			}
+			ids := map[int]bool{}
+			for _, te := range errs {
+				id, _ := num(te.Event.State()["id"])
+				ids[int(id)] = true
+			}
+			if len(ids) != 1 {
+				simrt.Fail("oracle:error-attribution", "error-foreign-event", "a root monitor holds errors of events with different ids: %v", ids)
+			}
+			for id := range ids {
+				notified[id]++
+			}
+		})
 	}
 	erp.Processor.Start()
 
@@ -502,6 +542,9 @@ func c11Run(p *c11Plan) {
 				if _, ok := want[s]; !ok {
 					diff = append(diff, fmt.Sprintf("sink %s reported an error (type %s detail %q) although its invocation for this event did not fail", s, g.typ, g.detail))
 				}
+			}
+			if p.Observer && notified[e.ID] != len(want) {
+				diff = append(diff, fmt.Sprintf("the error observer was called %d time(s) with the root monitor of this event, %d of its events failed", notified[e.ID], len(want)))
 			}
 			if len(diff) > 0 {
 				sort.Strings(diff)
